@@ -125,6 +125,13 @@ func (c16) Gen(rs uint64, tier string, race bool) interface{} {
 			s = revcompStr(s)
 			vstart = -1
 		}
+		if c.Reverse && i != verb && r.Chance(0.15) && len(c.Orf) > 40 {
+			// a decoy: a 5'-truncated piece of the ORF at the very start of the forward strand
+			// (a weaker candidate whose alignment begins with gaps), the whole ORF on the reverse strand
+			k := r.Pick(4, 5, 7, 8, 10, 11)
+			s = c.Orf[k:k+18+r.Intn(12)] + randNt(r, 3+r.Intn(10)) + revcompStr(c.Orf) + randNt(r, r.Intn(10))
+			vstart = -1
+		}
 		// "contains the reference ORF verbatim once"
 		if vstart >= 0 && strings.Count(s, c.Orf) != 1 {
 			vstart = -1
@@ -494,6 +501,39 @@ func (c16) Run(ctx *Ctx, ci interface{}) (o Outcome) {
 			if err == nil && seqStr(aa) != r.Aa {
 				o.Fail("framing:aa-mismatch:Phase", "%s: codon sequence %q translates to %q, reported amino acids %q", r.Name, r.Codon, seqStr(aa), r.Aa)
 				return
+			}
+		}
+		// a verbatim copy of the given ORF on one strand only (computed here, so that it stays true under shrinking):
+		// trimmed exactly at the ORF start of that strand, codons in frame from the first base, protein = the ORF's
+		if c.GiveRef && !r.Removed && len(c.Orf) >= 6 {
+			fw, rv := strings.Count(in, c.Orf), 0
+			rc := ""
+			if c.Reverse {
+				rc = revcompStr(in)
+				rv = strings.Count(rc, c.Orf)
+			}
+			want, strand := -1, ""
+			if fw == 1 && rv == 0 {
+				want, strand = strings.Index(in, c.Orf), "forward"
+			} else if fw == 0 && rv == 1 {
+				want, strand = strings.Index(rc, c.Orf), "reverse"
+			}
+			if want >= 0 {
+				o.Add("verbatim_"+strand+"_strand_checked", 1)
+				if r.Pos != want || !strings.HasPrefix(r.Nt, c.Orf[:3]) {
+					o.Fail("framing:verbatim-not-at-orf-start:Phase", "%s holds the reference ORF verbatim once, on the %s strand at %d, but was trimmed at %d (translate=%v reverse=%v cutend=%v)\ninput %q", r.Name, strand, want, r.Pos, c.Translate, c.Reverse, c.CutEnd, in)
+					return
+				}
+				if len(r.Codon) >= 3 && r.Codon != "<nil>" && r.Codon != r.Nt {
+					o.Fail("framing:verbatim-codons-out-of-frame:Phase", "%s holds the reference ORF verbatim (%s strand, position %d) and is trimmed at its ATG, but the codon sequence drops %d leading base(s): %q vs trimmed %q\ninput %q", r.Name, strand, want, len(r.Nt)-len(r.Codon), clip(r.Codon, 40), clip(r.Nt, 40), in)
+					return
+				}
+				if orfAA, err := align.NewSequence("o", []uint8(c.Orf[:len(c.Orf)-3]), "").Translate(0, c.Code); err == nil && r.Aa != "<nil>" && len(r.Aa) > 0 {
+					if !strings.HasPrefix(r.Aa, seqStr(orfAA)) {
+						o.Fail("framing:verbatim-protein-mismatch:Phase", "%s holds the reference ORF verbatim (%s strand) but its protein %q does not begin with the ORF's %q\ninput %q", r.Name, strand, clip(r.Aa, 50), clip(seqStr(orfAA), 50), in)
+						return
+					}
+				}
 			}
 		}
 		if idx >= 0 && c.Verbatim[idx] >= 0 && c.GiveRef && !r.Removed {
